@@ -1131,8 +1131,10 @@ func resolveFrom(v ssa.Value, stop ssa.Instruction, cut map[Edge]bool) []ssa.Val
 		}
 		switch x := v.(type) {
 		case *ssa.Phi:
+			// a phi evaluated before stop (its block is not re-entered after stop) keeps every incoming value
+			restricted := reach != nil && reach[x.Block()] && x.Block() != stop.Block()
 			for i, e := range x.Edges {
-				if reach != nil && i < len(x.Block().Preds) {
+				if restricted && i < len(x.Block().Preds) {
 					pred := x.Block().Preds[i]
 					if !reach[pred] && pred != stop.Block() {
 						continue
